@@ -355,6 +355,11 @@ func excludeToSpans(v *Version) (span, span, error) {
 	inf.setMajor(infinity)
 	inf.setMinor(infinity)
 	inf.setPatch(infinity)
+	if lo.lessThan(zero) {
+		// Excluding a version below 0.0.0, such as PyPI's 0b2: the
+		// lower span starts at the system's minimum instead.
+		zero = v.sys.MinVersion(zero)
+	}
 	s1, err := newSpan(zero, closed, lo, open)
 	if err != nil {
 		return span{}, span{}, err
